@@ -210,15 +210,28 @@ def field_origin(P, field):
                                 for cn2, r2 in q.chains(b, f["op"]):
                                     if r2.kind == "param" and not r2.name.endswith(":self"):
                                         params.add(int(r2.name.split(":", 1)[0]))
-        for idx in params:
-            for cb, cbb, ct in q.callers_of(P, b.key):
+        work = [(b, idx, 0) for idx in params]
+        done = set()
+        while work:
+            fb, idx, depth = work.pop()
+            if (fb.key, idx) in done:
+                continue
+            done.add((fb.key, idx))
+            for cb, cbb, ct in q.callers_of(P, fb.key):
                 if not q.not_test(cb) or len(ct["args"]) < idx:
                     continue
                 cs = q.chains(cb, ct["args"][idx - 1], stop=lambda r, cb=cb: _config_root(cb, r))
                 rs = [r for cn, r in cs]
                 plain = {"as_ref", "as_deref", "ok_or", "ok_or_else", "unwrap_or", "map", "clone", "to_owned", "into_owned",
                          "as_str", "deref", "borrow", "cloned", "to_string", "into", "from", "branch", "as_mut"}
-                cfg = bool(rs) and all(_config_root(cb, r) for r in rs) and all(set(short(n) for n in cn) <= plain for cn, r in cs)
+                plain_ok = all(set(short(n) for n in cn) <= plain for cn, r in cs)
+                if rs and plain_ok and depth < 3 and cb.key.startswith(TXN + "::") and not cb.is_closure and \
+                        all(r.kind == "param" and not r.name.endswith(":self") and not r.fields for r in rs):
+                    # one Txn method handing its own argument to another: what *its* callers pass decides
+                    for r in rs:
+                        work.append((cb, int(r.name.split(":", 1)[0]), depth + 1))
+                    continue
+                cfg = bool(rs) and all(_config_root(cb, r) for r in rs) and plain_ok
                 seen.append((cb.key, sorted(set(mir.show_root(r) for r in rs))[:2], cfg))
                 if not cfg:
                     allcfg = False
